@@ -227,10 +227,11 @@ func c14r3(c *Ctx, id string) {
 	c.need(flag != nil, id, "save flag field")
 	pws := w.positionWriterFuncs()
 	for _, fw := range forwarders(w) {
-		var pPayload *ssa.Parameter
-		for _, p := range fw.Params[1:] {
-			if types.IsInterface(p.Type()) && pPayload == nil {
-				pPayload = p
+		var pPayload *vparam
+		for _, vp := range vparams(fw) {
+			vp := vp
+			if types.IsInterface(vp.Type()) && pPayload == nil && !strings.Contains(vp.Type().String(), "tracing.") {
+				pPayload = &vp
 			}
 		}
 		if pPayload == nil {
